@@ -638,7 +638,7 @@ def run(ck):
     if new_viol:
         cid, code, slug = min(new_viol, key=lambda x: (len(byid[x[0]]["faults"] or []), sum(len(r["log"]) for r in byid[x[0]]["runs"])))
         c = byid[cid]
-        ck.violation({"property": "C18", "kind": SPEC_CODE.get(code, "spec violation %d" % code), "slug": slug, "cfg": c["cfg"],
+        ck.violation({"property": "C18", "kind": SPEC_CODE.get(code, "spec violation %d" % code), "slug": slug, "cfg": c["cfg"], "nhosts": c.get("nhosts") or 1,
                       "mode": c.get("class", ""), "faults": c["faults"], "failure_points": failure_points(c, sids, gen), "why": c.get("why", ""),
                       "runs": [{"fault": r.get("fault"), "returned_nil": r["ok"], "err": r.get("err", ""), "calls": len(r["log"]),
                                 "last_calls": r["log"][-3:]} for r in c["runs"]],
